@@ -34,6 +34,8 @@ pub struct Gen {
     pub len: usize,
     pub emitted: usize,
     phase: u32,
+    closing_gates: u32,
+    closing_ticks: u32,
 }
 
 const CAPS: &[usize] = &[1, 1, 2, 3, 4, 8, 32, 33];
@@ -42,7 +44,7 @@ impl Gen {
     pub fn new(seed: u64, family: Family) -> Self {
         let mut rng = Rng::new(seed);
         let len = 20 + rng.below(70) as usize;
-        Gen { rng, family, len, emitted: 0, phase: 0 }
+        Gen { rng, family, len, emitted: 0, phase: 0, closing_gates: 0, closing_ticks: 0 }
     }
 
     fn spawn_line(&mut self) -> String {
@@ -118,13 +120,20 @@ impl Gen {
             }
             return None;
         };
-        if self.emitted > self.len + 12 {
-            return None;
-        }
         self.emitted += 1;
-        // closing sequence: release everything, let time pass
+        // closing sequence: release every gate, let every timer fire, release what that unblocked
         if self.emitted > self.len {
-            return Some(if self.emitted % 4 == 0 { "tick".into() } else { "gate".into() });
+            use std::sync::atomic::Ordering;
+            let waiting = w.sh.waiting.load(Ordering::SeqCst);
+            if waiting && self.closing_gates < 400 {
+                self.closing_gates += 1;
+                return Some("gate".into());
+            }
+            if self.closing_ticks < 6 {
+                self.closing_ticks += 1;
+                return Some("tick".into());
+            }
+            return None;
         }
         let fam = self.family;
         let line = match fam {
